@@ -288,9 +288,14 @@ WBRef(m, cfg) ==
 (* that is not a handshake record (type 22) never matches; the hello is    *)
 (* produced by a real crypto/tls client; filters sni / alpn as in L4TLS.   *)
 (***************************************************************************)
-TLSMsgs == [kind : {"hello", "alert", "appdata", "sslv2", "http"}, sni : {"a.example.com", "b.example.com", ""}, alpn : {"none", "h2"}]
+\* "emptyrec": a handshake record of length 0; "shortrec": a handshake record of 3 bytes (type ClientHello, length cut);
+\* "notch": a handshake record whose first message is no ClientHello (type 2)
+TLSMsgs == [kind : {"hello", "alert", "appdata", "sslv2", "http", "emptyrec", "shortrec", "notch"}, sni : {"a.example.com", "b.example.com", ""}, alpn : {"none", "h2"}]
 TLSCfgs == [sni : {<<>>, <<"a.example.com">>}, alpn : {<<>>, <<"h2">>}]
-TLSRef(m, cfg) == IF m.kind # "hello" THEN "N"
+\* (a handshake record that ends inside the ClientHello's own header may be the first fragment of a hello that
+\* continues in the next record: left open)
+TLSRef(m, cfg) == IF m.kind = "shortrec" THEN "X"
+                  ELSE IF m.kind # "hello" THEN "N"
                   ELSE IF /\ (cfg.sni = <<>> \/ m.sni = "a.example.com")
                           /\ (cfg.alpn = <<>> \/ m.alpn = "h2")
                        THEN "Y" ELSE "N"
